@@ -149,10 +149,10 @@ class Core:
                 lines += ['else:'] + [ind + l for l in self.block(cp(env), genv, depth + 1, in_func, in_loop, 1)]
             return lines
         if c < 0.79 and depth < 2:
-            caught = ['ZeroDivisionError', 'ValueError', 'KeyError', 'AssertionError', 'RuntimeError', 'Exception', 'IndexError', 'ArithmeticError', 'LookupError', 'NameError']
+            caught = ['ZeroDivisionError', 'ValueError', 'KeyError', 'AssertionError', 'RuntimeError', 'Exception', 'IndexError', 'ArithmeticError', 'LookupError', 'NameError', 'OSError', 'UnicodeError', 'BaseException']
             body = self.block(cp(env), genv, depth + 1, in_func, in_loop, r.randint(1, 2))
             if r.random() < 0.6:
-                body.append(r.choice(['raise %s' % r.choice(caught[:5] + ['OSError', 'StopIteration']), 'print(1 // 0)', 'assert 1 == 2', 'raise %s()' % r.choice(caught[:5])]))
+                body.append(r.choice(['raise %s' % r.choice(caught[:5] + ['OSError', 'StopIteration', 'NotImplementedError', 'KeyboardInterrupt', 'FileNotFoundError', 'UnicodeDecodeError', 'RecursionError']), 'print(1 // 0)', 'assert 1 == 2', 'raise %s()' % r.choice(caught[:5])]))
             lines = ['try:'] + [ind + l for l in body]
             nh = r.choice([0, 1, 1, 2])
             for _ in range(nh):
